@@ -49,6 +49,16 @@ class C02(core.Check):
                 w.setdefault('syms', sorted({x for x, _ in w['routes']}))
                 w.setdefault('balance', 100_000)
                 witnesses.append(w)
+        for key in ('witness_fast',):
+            for k in core.load_known():
+                if k['property'] == 'C02' and k.get('status') == 'open' and 'session' in k.get(key, {}):
+                    witnesses.append(dict(k[key]['session']))
+        witnesses += [dict(x) for x in core.load_regressions('C02')]
+        for w in witnesses:
+            w['routes'] = [tuple(x) for x in w['routes']]
+            w['droutes'] = [tuple(x) for x in w['droutes']]
+            w.setdefault('syms', sorted({x for x, _ in w['routes']}))
+            w.setdefault('balance', 100_000)
         for sess in witnesses + self.sessions(self.budget(180, 1200, boost), rng) + engcorr.micro_sessions(rng, self.budget(250, 3000, boost)):
             cands = engcorr.candles_of(sess)
             ev, tr, err = engcorr.run_real(sess, cands)
@@ -67,7 +77,12 @@ class C02(core.Check):
             res.seen((sess['candle_seed'], sess['fast']), any(v > 1 for v in multi.values()))
             res.count('sessions:' + ('fast' if sess['fast'] else 'step'))
             res.count('orders', len(tr.orders))
+            overtaken = {k for (what, k, info) in bad if what == 'market-order-overtaken'}
             for (what, k, info) in bad[:3]:
+                if what == 'market-not-filled-at-submission':
+                    # the same MARKET order was overtaken inside its minute by a resting order (whose fill cut the candle
+                    # below/above the MARKET order's price): the delay to a later minute is the consequence
+                    info = dict(info, after_being_overtaken=k in overtaken)
                 res.fail(**{'class': f'matching/{what}/' + ('fast' if sess['fast'] else 'step'),
                             'input': {'session': {kk: sess[kk] for kk in ('kind', 'fee', 'leverage', 'isolated', 'fast', 'routes',
                                                                          'droutes', 'n', 'scripts', 'candle_seed', 'vol', 'gap_prob', 'rows')
@@ -76,7 +91,8 @@ class C02(core.Check):
                             'params': {'simulator': 'fast' if sess['fast'] else 'step',
                                        'in_gap_only': bool(info.get('in_gap_only')),
                                        'market_priced_at_path_position': info.get('market_priced_at_path_position'),
-                                       'jumped_over_by_out_of_order_fill': info.get('jumped_over_by_out_of_order_fill')}})
+                                       'jumped_over_by_out_of_order_fill': info.get('jumped_over_by_out_of_order_fill'),
+                                       'after_being_overtaken': info.get('after_being_overtaken')}})
             if not bad and len(res.samples) < 3:
                 res.sample({'routes': sess['routes'], 'fast': sess['fast'], 'orders': len(tr.orders),
                             'max_fills_in_one_minute': max(multi.values()) if multi else 0})
